@@ -4,7 +4,8 @@ from .engine import REPO, WORK, VERIF
 
 
 def build_rlib():
-    tdir = os.path.join(WORK, "c15-target")
+    import hashlib
+    tdir = os.path.join(WORK, "c15-target" + ("" if REPO == "/repo" else "-" + hashlib.sha1(REPO.encode()).hexdigest()[:8]))
     p = subprocess.run(["cargo", "build", "--offline", "--quiet", "--lib"], cwd=REPO,
                        env=dict(os.environ, CARGO_TARGET_DIR=tdir, CARGO_NET_OFFLINE="true"),
                        capture_output=True, text=True)
